@@ -196,7 +196,7 @@ def step(s, method, args):
     return ("other", repr(r)[:80])
 
 
-def bfs(kind, tier, max_len, on_transition=None):
+def bfs(kind, tier, max_len, on_transition=None, on_state=None):
     """Explores all chains up to max_len.  Returns (states: fp -> (schema, chain), transitions)."""
     alpha = alphabet(kind, tier)
     init = getattr(schema, kind)
@@ -211,6 +211,8 @@ def bfs(kind, tier, max_len, on_transition=None):
             break
         nxt = []
         for s, chain in frontier:
+            if on_state is not None:
+                on_state(s, chain)           # before the first call is made on this receiver
             for method, args in alpha:
                 ntrans += 1
                 out = step(s, method, args)
